@@ -70,7 +70,9 @@ class HandlerModel:
 
     def run(self, code, shape, flags=None, handler=None, cmp_oracle=None, assume=None, **opts):
         d = self.D.codes[code]
-        h = self.F.bodies[handler or d["handler"]]
+        # the run starts at the mnemonic's dispatcher (with `i.code()` = this Code), not at the handler: whatever the
+        # dispatcher does before or after calling the handler is part of the instruction's behaviour
+        h = self.F.bodies[handler or d.get("dispatcher") or d["handler"]]
         label, kinds, spec = shape
         pr = P.HandlerPrims(self.F, self.R, spec, code=code, mnemonic=d["mnemonic"], opkinds=kinds, **opts)
         I = A.Interp(self.F, intercept=pr.intercept)
